@@ -10,6 +10,7 @@ package vpriv
 
 import (
 	"reflect"
+	"strconv"
 	"unsafe"
 )
 
@@ -121,4 +122,74 @@ func ReadLock(ptr any) (unlock func(), ok bool) {
 	}
 	mu.MethodByName("Lock").Call(nil)
 	return func() { mu.MethodByName("Unlock").Call(nil) }, true
+}
+
+// Scalars renders every field of the struct ptr points to that holds a plain value — string,
+// bool, integer, float, error, and the sync/atomic value types (a struct whose last field is an
+// integer or pointer named v) — as " name=value", in declaration order. Search keys append it so
+// that whatever ELSE an object remembers in its own fields (a change of the code under test may
+// add such fields) keeps states with different futures apart; a finer key only costs time.
+// Maps, slices, channels, funcs, interfaces other than error and nested structs are left to the
+// harness, which knows how to canonicalise them.
+func Scalars(ptr any) string {
+	rv := reflect.ValueOf(ptr)
+	if rv.Kind() != reflect.Pointer || rv.IsNil() || rv.Elem().Kind() != reflect.Struct {
+		return ""
+	}
+	t := rv.Elem().Type()
+	errT := reflect.TypeOf((*error)(nil)).Elem()
+	out := ""
+	for i := 0; i < t.NumField(); i++ {
+		f := t.Field(i)
+		v, ok := Field(ptr, f.Name)
+		if !ok {
+			continue
+		}
+		if s, ok := scalar(v, errT); ok {
+			out += " " + f.Name + "=" + s
+		} else if v = unshim(v); v.Kind() == reflect.Struct && v.NumField() > 0 && v.Type().Field(v.NumField()-1).Name == "v" {
+			inner := v.Field(v.NumField() - 1)
+			inner = reflect.NewAt(inner.Type(), unsafe.Pointer(inner.UnsafeAddr())).Elem()
+			if s, ok := scalar(inner, errT); ok {
+				out += " " + f.Name + ".v=" + s
+			} else if inner.Kind() == reflect.Pointer || inner.Kind() == reflect.UnsafePointer {
+				if inner.IsNil() {
+					out += " " + f.Name + ".v=nil"
+				} else {
+					out += " " + f.Name + ".v=set"
+				}
+			}
+		}
+	}
+	return out
+}
+
+// unshim looks through the engine's instrumented atomics (struct{ r atomic.X }).
+func unshim(v reflect.Value) reflect.Value {
+	if v.Kind() == reflect.Struct && v.NumField() == 1 && v.Type().Field(0).Name == "r" && v.Field(0).Kind() == reflect.Struct {
+		f := v.Field(0)
+		return reflect.NewAt(f.Type(), unsafe.Pointer(f.UnsafeAddr())).Elem()
+	}
+	return v
+}
+
+func scalar(v reflect.Value, errT reflect.Type) (string, bool) {
+	switch k := v.Kind(); {
+	case v.Type() == errT:
+		if v.IsNil() {
+			return "nil", true
+		}
+		return "err(" + v.Interface().(error).Error() + ")", true
+	case k == reflect.String:
+		return strconv.Quote(v.String()), true
+	case k == reflect.Bool:
+		return strconv.FormatBool(v.Bool()), true
+	case k >= reflect.Int && k <= reflect.Int64:
+		return strconv.FormatInt(v.Int(), 10), true
+	case k >= reflect.Uint && k <= reflect.Uintptr:
+		return strconv.FormatUint(v.Uint(), 10), true
+	case k == reflect.Float32 || k == reflect.Float64:
+		return strconv.FormatFloat(v.Float(), 'g', -1, 64), true
+	}
+	return "", false
 }
